@@ -122,7 +122,10 @@ let split_on (sep : string) (s : string) : string list =
 let () =
   iter_lines (fun line ->
     let line = String.trim line in
-    if line <> "" then begin
+    if line <> "" && Filename.check_suffix line "| E2E-STARTUP" then
+      (* NodeHost.startShard runs processOrphans (startup_cleans, Gen.GenC16) *)
+      Printf.printf "%s startup %s\n" (List.hd (split_ws line)) (if startup_cleans then "clean" else "left")
+    else if line <> "" then begin
       let hd, body =
         match Str.bounded_split_delim (Str.regexp_string " | ") line 2 with
         | [h; b] -> (h, b)
